@@ -97,11 +97,7 @@ def compose_only_unit(cls):
 
 def k6(P, cls, obj, wire):
     """clause K6: the composed bytes equal the specification encoding written from the protocol documents"""
-    from spec import wire as W, tls, opptls, dns      # noqa: F401
-    try:
-        from spec import ssh                     # noqa: F401
-    except ImportError:
-        pass
+    from spec import wire as W, tls, opptls, dns, ssh      # noqa: F401
     f = W.SPECS.get(cls.__name__)
     if f is None:
         return
@@ -118,11 +114,7 @@ def k6(P, cls, obj, wire):
 
 
 def has_spec(cls):
-    from spec import wire as W, tls, opptls, dns      # noqa: F401
-    try:
-        from spec import ssh                     # noqa: F401
-    except ImportError:
-        pass
+    from spec import wire as W, tls, opptls, dns, ssh      # noqa: F401
     return cls.__name__ in W.SPECS
 
 
